@@ -1,0 +1,147 @@
+// Copyright 2026 CUE Authors
+//
+// Licensed under the Apache License, Version 2.0 (the "License");
+// you may not use this file except in compliance with the License.
+// You may obtain a copy of the License at
+//
+//     http://www.apache.org/licenses/LICENSE-2.0
+//
+// Unless required by applicable law or agreed to in writing, software
+// distributed under the License is distributed on an "AS IS" BASIS,
+// WITHOUT WARRANTIES OR CONDITIONS OF ANY KIND, either express or implied.
+// See the License for the specific language governing permissions and
+// limitations under the License.
+
+//go:build verif
+
+package simhook
+
+import "sync"
+
+// Enabled reports whether the hooks are compiled in.
+const Enabled = true
+
+// Simulator is what a deterministic simulator implements.
+// Every method must behave like the corresponding no-op when it is
+// called by a goroutine the simulator does not know about.
+type Simulator interface {
+	// Yield is a plain scheduling point.
+	Yield(site string)
+	// Spawn is called in the parent on the line before a go statement.
+	Spawn(site string) Token
+	// Started is the first statement of the goroutine; it parks until
+	// scheduled. If t is zero the goroutine claims any pending Spawn of
+	// the same site; a goroutine that is already known is left alone.
+	Started(site string, t Token)
+	// Woken is called with l held right after a sync.Cond wake-up:
+	// it unlocks l, parks until scheduled and locks l again.
+	Woken(site string, l sync.Locker)
+	// Acquire is called before taking a real lock that may be held
+	// across a scheduling point; it parks until the lock is free in the
+	// simulator's model of it.
+	Acquire(site string, res any)
+	// Release is called after the real lock has been released.
+	Release(site string, res any)
+	// Pick overrides a random choice of i in [0, n).
+	Pick(site string, i, n int) int
+	// At marks a point between two externally visible effects. The
+	// simulator may decide never to return from it (a simulated crash).
+	At(site string, detail ...string)
+	// NoYield brackets a real critical section inside which the
+	// simulator must not switch tasks.
+	NoYield(delta int)
+	// Probe counts that a branch of interest was taken.
+	Probe(name string)
+	// RegisterCloser tells the simulator how to drop a real lock held
+	// by the calling task, should it decide to kill the task's process.
+	RegisterCloser(res any, close func())
+}
+
+var active Simulator
+
+// Attach installs s; it must be called while no goroutine of the system
+// under simulation is running. Attach(nil) detaches.
+func Attach(s Simulator) { active = s }
+
+func Yield(site string) {
+	if s := active; s != nil {
+		s.Yield(site)
+	}
+}
+
+func Spawn(site string) Token {
+	if s := active; s != nil {
+		return s.Spawn(site)
+	}
+	return 0
+}
+
+func Started(site string, t Token) {
+	if s := active; s != nil {
+		s.Started(site, t)
+	}
+}
+
+func Woken(site string, l sync.Locker) {
+	if s := active; s != nil {
+		s.Woken(site, l)
+	}
+}
+
+func Acquire(site string, res any) {
+	if s := active; s != nil {
+		s.Acquire(site, res)
+	}
+}
+
+func Release(site string, res any) {
+	if s := active; s != nil {
+		s.Release(site, res)
+	}
+}
+
+func Pick(site string, i, n int) int {
+	if s := active; s != nil {
+		return s.Pick(site, i, n)
+	}
+	return i
+}
+
+func At(site string, detail ...string) {
+	if s := active; s != nil {
+		s.At(site, detail...)
+	}
+}
+
+func NoYield(delta int) {
+	if s := active; s != nil {
+		s.NoYield(delta)
+	}
+}
+
+func Probe(name string) {
+	if s := active; s != nil {
+		s.Probe(name)
+	}
+}
+
+// WrapUnlock is used after a real cross-process lock has been taken
+// (preceded by Acquire(site, res)): it returns an unlock function that
+// also releases the simulator's model of the lock. If taking the lock
+// failed, the model is released at once.
+func WrapUnlock(site string, res any, unlock func(), err error) (func(), error) {
+	s := active
+	if s == nil {
+		return unlock, err
+	}
+	if err != nil {
+		s.Release(site, res)
+		return unlock, err
+	}
+	var once sync.Once
+	s.RegisterCloser(res, func() { once.Do(unlock) })
+	return func() {
+		once.Do(unlock)
+		s.Release(site, res)
+	}, nil
+}
